@@ -157,6 +157,36 @@ def built_cases(quick):
     return out if not quick else out
 
 
+def recv_spec(ent, wrong_key=False):
+    ''' receiver description (see bpsecdrive.receiver_from_spec) for a wire entry / a replay dict '''
+    return dict(profile=ent['profile'], extra=ent.get('extra'), accept=ent.get('accept'), wrong_key=bool(wrong_key))
+
+
+def multi_bib_wires(all_specs):
+    ''' Bundles with two and three SEPARATE BIBs from different security sources over different targets (source
+    BIB over the payload, gateway BIBs over extension blocks), for verifiers with acceptance on and off; and a
+    three-target BIB applied by the real agent. '''
+    wires = []
+    plain = sd.SecNode(sd.SRC_ID)
+    base = plain.send(all_specs['S1'])          # blocks 2 (type 7), 4 (type 193), payload 1
+    layers = [('mac0-hmac256', [1], None), ('mac0-hmac384', [2], [1, '//gw1/']), ('mac0-hmac512', [4], [1, '//gw2/'])]
+    for (count, accept) in ((2, True), (3, True), (2, False)):
+        wire = base
+        for (prof_name, targets, source) in layers[:count]:
+            (kid, key, alg, _ops) = sd.PROFILES[prof_name]['key']
+            wire = sd.build_security_block(wire, 'bib', 'mac0', alg, key, kid.encode(), targets, scope={0: 1, -1: 1}, source=source)
+        wires.append(dict(id='built:%dbibs:accept-%s' % (count, 'on' if accept else 'off'), profile='mac0-hmac256',
+                          extra=[name for (name, _t, _s) in layers[1:count]], accept=accept, n_sec=count, wire=wire,
+                          payload=all_specs['S1']['payload'], source='built', scope={0: 1, -1: 1}, targets=[1]))
+    for accept in (True, False):
+        src = sd.make_source(sd.PROFILES['mac0-hmac256'], tgt_types=(1, 7, 193))
+        wire = src.send(all_specs['S1'])
+        wires.append(dict(id='agent:mac0-hmac256:S1:3targets:accept-%s' % ('on' if accept else 'off'), profile='mac0-hmac256',
+                          accept=accept, wire=wire, payload=all_specs['S1']['payload'], source='agent', scope={0: 1, -1: 1},
+                          targets=[1, 2, 4]))
+    return wires
+
+
 def make_wires(chk, quick):
     ''' :return: list of dict(id, profile, wire, payload, source ('agent'|'built'), scope, targets). '''
     all_specs = specs(quick)
@@ -176,6 +206,7 @@ def make_wires(chk, quick):
                                        addl_protected=addl, crc=crc)
         wires.append(dict(id='built:%d:%s' % (idx, spec_name), profile='mac0-hmac256', wire=wire,
                           payload=all_specs[spec_name]['payload'], source='built', scope=scope, targets=targets))
+    wires.extend(multi_bib_wires(all_specs))
     return wires
 
 
@@ -451,12 +482,13 @@ def suite_alterations(suite, wires, quick, batch):
         cases = alterations(ent, chk.rng, quick, suite.sec_type)
         classes = [suite.classify(ent, case['alt']) for case in cases]
         trace('%s: %d alterations classified' % (ent['id'], len(cases)))
-        outs = sd.sweep(dict(profile=ent['profile'], extra=ent.get('extra')), [case['alt'] for case in cases], procs=nproc)
+        outs = sd.sweep(recv_spec(ent), [case['alt'] for case in cases], procs=nproc)
         trace('%s: swept' % ent['id'])
         budget = 25 if quick else 400
         for (cidx, (case, cls, out)) in enumerate(zip(cases, classes, outs)):
             replay = dict(wire_hex=ent['wire'].hex(), alt_hex=case['alt'].hex(), profile=ent['profile'], label=case['label'],
-                          payload_hex=ent['payload'].hex(), wire_id=ent['id'], extra=ent.get('extra'), targets=ent.get('targets'))
+                          payload_hex=ent['payload'].hex(), wire_id=ent['id'], extra=ent.get('extra'), targets=ent.get('targets'),
+                          accept=ent.get('accept'))
             case['stale'] = case['label'].endswith(':stale-crc')
             (suite.oracle or oracle)(suite, ent, case, cls, out, replay)
             nontrivial = cls[0] in ('must_fail', 'must_pass', 'either')
@@ -511,31 +543,35 @@ def suite_alterations(suite, wires, quick, batch):
 def suite_baseline(suite, wires):
     chk = suite.chk
     for ent in wires:
-        prof = sd.PROFILES[ent['profile']]
-        good = sd.make_receiver(prof)
+        good = sd.receiver_from_spec(recv_spec(ent))
         out = good.recv(ent['wire'])
         vd = good.verify_direct(ent['wire'])
         replay = dict(wire_hex=ent['wire'].hex(), alt_hex=ent['wire'].hex(), profile=ent['profile'], label='unaltered',
-                      payload_hex=ent['payload'].hex(), wire_id=ent['id'])
+                      payload_hex=ent['payload'].hex(), wire_id=ent['id'], extra=ent.get('extra'), accept=ent.get('accept'),
+                      targets=ent.get('targets'))
         chk.case(ident=('baseline', ent['id']), nontrivial=True)
         items = [it for (it, _r, _o) in sd.split_bundle(ent['wire'])]
         n_bib = sum(1 for blk in items[1:] if blk[0] == SEC_TYPE)
-        if n_bib != 1:
-            chk.fail(signature='C03 / source did not add exactly one BIB', what='%s: %d BIBs on the wire' % (ent['id'], n_bib), replay_obj=replay)
+        want = ent.get('n_sec', 1)
+        if n_bib != want:
+            chk.fail(signature='C03 / source did not add the expected BIB(s)', what='%s: %d BIBs on the wire, expected %d' % (ent['id'], n_bib, want), replay_obj=replay)
             continue
-        if not (out['delivered'] and out['payload'] == ent['payload'] and vd['bib'] == [None]):
+        if not (out['delivered'] and out['payload'] == ent['payload'] and vd['bib'] == [None] * want):
             chk.fail(signature='C03 / unmodified bundle does not verify at a receiver holding the right key',
                      what='%s: delivered=%r verify_bib=%r reason=%r' % (ent['id'], out['delivered'], vd['bib'], out['reason']), replay_obj=replay)
-        bad = sd.make_receiver(prof, wrong_key=True)
+        bad = sd.receiver_from_spec(recv_spec(ent, wrong_key=True))
         outb = bad.recv(ent['wire'])
         vdb = bad.verify_direct(ent['wire'])
         chk.case(ident=('wrongkey', ent['id']), nontrivial=True)
         replay['wrong_key'] = True
-        if outb['delivered'] or vdb['bib'] != [sd.FAILED_SEC] or not outb['sec_failure']:
+        if outb['delivered'] or vdb['bib'] != [sd.FAILED_SEC] * want or not outb['sec_failure']:
             chk.fail(signature='C03 / wrong key accepted or failure not reported',
                      what='%s with the wrong key: delivered=%r verify_bib=%r sec_failure=%r reason=%r' % (
                          ent['id'], outb['delivered'], vdb['bib'], outb['sec_failure'], outb['reason']), replay_obj=replay)
         suite.count('baseline', ent['profile'])
+        suite.count('security_blocks_per_bundle', want)
+        suite.count('targets_per_bundle', len(ent.get('targets', [1])))
+        suite.count('accept_after_verify', str(ent.get('accept')))
 
 
 def suite_mac_kw(suite):
@@ -574,8 +610,7 @@ def suite_mac_kw(suite):
 
 def run_one(replay):
     ''' Re-run exactly one stored input; returns (class, outcome). '''
-    prof = sd.PROFILES[replay['profile']]
-    node = sd.make_receiver(prof, wrong_key=bool(replay.get('wrong_key')))
+    node = sd.receiver_from_spec(recv_spec(replay, wrong_key=replay.get('wrong_key')))
     wire = bytes.fromhex(replay['wire_hex'])
     alt = bytes.fromhex(replay['alt_hex'])
     out = node.recv(alt)
@@ -594,7 +629,8 @@ def suite_corpus(suite):
         (cls, out, vd) = run_one(item['replay'])
         chk.case(ident=('corpus', name), nontrivial=True)
         ent = dict(wire=bytes.fromhex(item['replay']['wire_hex']), payload=bytes.fromhex(item['replay']['payload_hex']),
-                   profile=item['replay']['profile'], id=item['replay'].get('wire_id', name))
+                   profile=item['replay']['profile'], id=item['replay'].get('wire_id', name),
+                   targets=item['replay'].get('targets') or [1])
         case = dict(label=item['replay']['label'], alt=bytes.fromhex(item['replay']['alt_hex']), kind='corpus')
         out['direct'] = dict(bib=vd['bib'], bcb=vd['bcb'], error=vd['error'])
         out['payload'] = out['payload'].hex() if out['payload'] is not None else None
@@ -630,15 +666,16 @@ def replay_main(chk, path):
     print('class by the property text: %s (%s)' % cls)
     print('real receive path: delivered=%r payload=%r sec_failure=%r reason=%r recv_exc=%r; verify_bib -> %r' % (
         out['delivered'], out['payload'], out['sec_failure'], out['reason'], out['recv_exc'], vd['bib']))
-    ent = dict(wire=bytes.fromhex(rep['wire_hex']), payload=bytes.fromhex(rep['payload_hex']), profile=rep['profile'], id=rep.get('wire_id', 'replay'))
+    ent = dict(wire=bytes.fromhex(rep['wire_hex']), payload=bytes.fromhex(rep['payload_hex']), profile=rep['profile'],
+               id=rep.get('wire_id', 'replay'), targets=rep.get('targets') or [1])
     case = dict(label=rep['label'], alt=bytes.fromhex(rep['alt_hex']), kind='replay')
     out['direct'] = dict(bib=vd['bib'], bcb=vd['bcb'], error=vd['error'])
     out['payload'] = out['payload'].hex() if out['payload'] is not None else None
     if rep.get('wrong_key'):
-        if out['delivered'] or vd['bib'] != [sd.FAILED_SEC]:
+        if out['delivered'] or not vd['bib'] or any(val != sd.FAILED_SEC for val in vd['bib']):
             chk.fail(signature='C03 / wrong key accepted or failure not reported', what='replay', replay_obj=rep)
     elif cls[0] == 'unaltered':
-        if not (out['delivered'] and vd['bib'] == [None]):
+        if not (out['delivered'] and vd['bib'] and all(val is None for val in vd['bib'])):
             chk.fail(signature='C03 / unmodified bundle does not verify at a receiver holding the right key', what='replay', replay_obj=rep)
     else:
         oracle(suite, ent, case, cls, out, rep)
@@ -685,8 +722,9 @@ def main():
     chk.finish(
         rule=('aad: random + boundary-directed (bundle, scope, target, security-block header) cases through the real get_external_aad and '
               'Model.BpSec.direct_aad, non-trivial = the real code returned octets for a non-empty scope; e2e: for each of %d bundles '
-              '(BIB applied by the real agent: MAC0 HMAC-256/384/512, Sign1 ES256/ES384/PS512; or by the independent source with 8 AAD '
-              'scopes / targets) every single-field alteration (cbor2 decode, one item changed/dropped/added, CRCs re-fixed, plus EID-syntax '
+              '(BIB applied by the real agent: MAC0 HMAC-256/384/512, Sign1 ES256/ES384/PS512, one BIB with three targets; or by the '
+              'independent source with 8 AAD scopes / targets, and two / three separate BIBs from different security sources over different '
+              'targets; verifiers with accept_after_verify on and off) every single-field alteration (cbor2 decode, one item changed/dropped/added, CRCs re-fixed, plus EID-syntax '
               'variants with and without CRC re-fix) and %s single-bit flips (CRCs re-fixed over the altered octets), each run through the real '
               'receive path and verify_bib; distinct = distinct altered octets; non-trivial = class must_fail / must_pass / either by the '
               'property text (malformed / stripped / no-security-block cases are counted but trivial)') % (
